@@ -60,11 +60,29 @@ def field(rnd, name, i, tid, positional_ok=False, last=False):
         ann["hide_usage"] = True
     elif r2 < 0.2:
         ann["custom_usage"] = f"CU{i}"
+    # explicit annotations that override what the type alone would give (they need an explicit consumer)
+    r3 = rnd.random()
+    if ty == "T" and base in ("u32", "String") and not ann["fallback"] and r3 < 0.15:
+        ann["guard"] = True                     # guard(fn, msg)
+    elif ty == "vec" and r3 < 0.25:
+        ann["arity"] = "some"                   # argument(..), some(msg)
+    elif ty == "T" and not ann["fallback"] and 0.15 <= r3 < 0.25:
+        ann["arity"] = "last"                   # argument(..), last
+    elif ty == "opt" and base == "u32" and r3 < 0.25:
+        ann["catch"] = True                     # argument(..), optional, catch
+    elif ty == "unit" and r3 < 0.3:
+        ty = "count"                            # req_flag(()), count on a usize field
+    if ann.get("arity") or ann.get("catch"):
+        ann["argument"] = ann["argument"] or f"META{i}"
+    if ann["long"] != "none" and rnd.random() < 0.2:
+        ann["alias"] = f"alias-{i}"             # a second long name
     if positional_ok and ty in ("T", "opt", "vec") and rnd.random() < 0.5:
         ann.update(positional=True, posmeta=rnd.choice(["", f"POS{i}"]), short="none", long="none", argument="", fallback=False, env="",
-                   hide_usage=False, custom_usage="")
+                   hide_usage=False, custom_usage="", guard=False, arity="", catch=False, alias="")
         if not last and ty != "T":
             ty = "T"
+        if last and rnd.random() < 0.4:
+            ann["strict"] = rnd.choice(["strict", "non_strict"])
     return {"name": name, "chars": chars(name), "ty": ty, "base": base, "ann": ann, "help": f"HELP-{tid}-{name}" if rnd.random() < 0.8 else ""}
 
 
@@ -158,9 +176,13 @@ def enum_def(rnd, tid, commands):
                 if f["ty"] in ("bool", "opt", "vec") and j == 0 and not commands:
                     f["ty"] = "T"          # the first field of an alternative is required so that the alternative has an owner
                     f["ann"]["switch"] = False
+                    f["ann"].update(arity="", catch=False)
                 f["ann"]["hide"] = False
                 f["ann"]["hide_usage"], f["ann"]["custom_usage"] = False, ""
                 f["ann"]["short"], f["ann"]["long"] = ("none", "none")
+                f["ann"]["alias"] = ""
+                if f["ty"] == "count":
+                    f["ty"] = "unit"
                 fields.append(f)
         ann = {"short": "none", "long": "none"}
         if kind == "unit" and not commands:
@@ -218,12 +240,12 @@ def family(seed, n):
 # ------------------------------------------------------------------ Rust source
 def rust_ty(f):
     b = f["base"] if f["base"] != "PathBuf" else "std::path::PathBuf"
-    return {"bool": "bool", "unit": "()", "T": b, "opt": f"Option<{b}>", "vec": f"Vec<{b}>"}[f["ty"]]
+    return {"bool": "bool", "unit": "()", "count": "usize", "T": b, "opt": f"Option<{b}>", "vec": f"Vec<{b}>"}[f["ty"]]
 
 
 def val_expr(f, e):
     base = {"String": "vs", "u32": "vi", "PathBuf": "vp"}[f["base"]]
-    return {"bool": f"Val::Bool({e})", "unit": "Val::Unit", "T": f"{base}({e})",
+    return {"bool": f"Val::Bool({e})", "unit": "Val::Unit", "count": f"Val::Count({e})", "T": f"{base}({e})",
             "opt": f"match {e} {{ Some(x) => Val::Just(Box::new({base}(x))), None => Val::Nothing }}",
             "vec": f"Val::List({e}.into_iter().map({base}).collect())"}[f["ty"]]
 
@@ -241,12 +263,31 @@ def field_attrs(f):
         items.append("long")
     elif a["long"] != "none":
         items.append(f'long("{a["long"]}")')
+    if a.get("alias"):
+        items.append(f'long("{a["alias"]}")')
     if a.get("env"):
         items.append(f'env("{a["env"]}")')
     if a["switch"]:
         items.append("switch")
+    if f["ty"] == "count":
+        items.append("req_flag(())")
     if a["argument"]:
         items.append(f'argument("{a["argument"]}")')
+    if a.get("strict"):
+        # (a parse-level annotation switches the implicit optional / many off: spelled out)
+        items.append(a["strict"])
+        if f["ty"] in ("opt", "vec"):
+            items.append("optional" if f["ty"] == "opt" else "many")
+    if f["ty"] == "count":
+        items.append("count")
+    if a.get("arity") == "some":
+        items.append(f'some("SOMEMSG-{f["sid"]}")')
+    if a.get("arity") == "last":
+        items.append("last")
+    if a.get("catch"):
+        items += ["optional", "catch"]
+    if a.get("guard"):
+        items.append(f'guard(guard_{f["base"].lower()}, "GUARDMSG-{f["sid"]}")')
     if a["fallback"]:
         items.append("fallback(7)")
     if a.get("hide_usage"):
@@ -267,8 +308,18 @@ def rust_source(tds):
     out = ["// @generated by py/gen_derive.py - do not edit", "#![allow(dead_code, unused_imports, clippy::all)]",
            "use bpaf::*;", "use bpaf_verif_harness::val::Val;", "use std::os::unix::ffi::OsStringExt;",
            "fn vs(s: String) -> Val { Val::Bytes(s.into_bytes()) }", "fn vi(i: u32) -> Val { Val::Int(i as i64) }",
-           "fn vp(p: std::path::PathBuf) -> Val { Val::Bytes(p.into_os_string().into_vec()) }", ""]
+           "fn vp(p: std::path::PathBuf) -> Val { Val::Bytes(p.into_os_string().into_vec()) }",
+           "fn guard_u32(v: &u32) -> bool { *v != 2 }", 'fn guard_string(v: &String) -> bool { v != "2" }', ""]
     reg = []
+    # the identifiers the specification gives the derived items (messages carry them)
+    for td in tds:
+        for f in td["fields"]:
+            f["sid"] = "f" + f["name"]
+        for f in td.get("inner", {}).get("fields", []):
+            f["sid"] = "i" + f["name"]
+        for k, v in enumerate(td["variants"]):
+            for f in v["fields"]:
+                f["sid"] = ("c" if v["command"] else "v") + str(k + 1) + f["name"]
     for td in tds:
         tid = td["id"]
         fn = tid.lower()
@@ -287,7 +338,7 @@ def rust_source(tds):
                 out.append(field_attrs(f) + f"    {rn(f)}: {rust_ty(f)},")
             out.append("}")
             if inn.get("fallback"):
-                dv = lambda f: {"bool": "false", "unit": "()", "opt": "None", "vec": "Vec::new()",
+                dv = lambda f: {"bool": "false", "unit": "()", "count": "0", "opt": "None", "vec": "Vec::new()",
                                 "T": {"String": 'String::from("d")', "u32": "7", "PathBuf": 'std::path::PathBuf::from("d")'}[f["base"]]}[f["ty"]]
                 inits = ", ".join(f"{rn(f)}: {dv(f)}" for f in inn["fields"])
                 out.append(f"impl {tid}Inner {{ fn dflt() -> Self {{ {tid}Inner {{ {inits} }} }} }}")
